@@ -12,734 +12,774 @@ Definition show_fres (r : fres) : string :=
   end.
 Definition check (rs : list rune) : string := digest (show_fres (format_res rs)).
 Definition full (rs : list rune) : string := show_fres (format_res rs).
-Eval vm_compute in ("<<<M1352>>>" ++ check (runes_of_ascii "// top
-options
-    // c0
-{ // c1
-StringPrefixLenType // c2a
-  // c2b
-=
+Eval vm_compute in ("<<<M1361>>>" ++ check (runes_of_ascii "options { // c1a
+  // c1b
+StringPrefixLenType =
     // c3
-u8 // c4a
-  // c4b
-; ArrayPrefixLenType // c6
-= // c7
-u32 // c8
-;
-    // c9
-FixedStringPadFromLeft
-    // c10
-= true // c12a
-  // c12b
-; // c13
-FixedStringPadChar // c14
+u8 // c4
+; ArrayPrefixLenType // c6a
+  // c6b
+= u32 // c8a
+  // c8b
+; // c9
+FixedStringPadFromLeft // c10
 =
-    // c15
-' ' ; } packet // c19
+    // c11
+true // c12
+; FixedStringPadChar // c14
+= // c15a
+  // c15b
+' ' // c16a
+  // c16b
+; // c17a
+  // c17b
+} // c18a
+  // c18b
+packet // c19a
+  // c19b
 Leg
     // c20
-{ // c21a
-  // c21b
-} packet
+{
+    // c21
+} // c22a
+  // c22b
+packet
     // c23
 Heartbeat
     // c24
-{ // c25
-zchar[ // c26a
-  // c26b
-6 ] msgKind // c29a
-  // c29b
-, // c30a
-  // c30b
-@rightPad
-    // c31
-( '0' ) // c34
+{ // c25a
+  // c25b
+zchar[ // c26
+6 // c27a
+  // c27b
+] msgKind ,
+    // c30
+@rightPad // c31
+(
+    // c32
+'0' // c33a
+  // c33b
+)
+    // c34
 char[ // c35a
   // c35b
-3 // c36a
-  // c36b
-]
-    // c37
-Qty , zchar[
-    // c40
+3
+    // c36
+] Qty
+    // c38
+, // c39a
+  // c39b
+zchar[ // c40
 9 // c41a
   // c41b
-] // c42
-Side2 , i8
-    // c45
-Acct // c46
-, // c47a
-  // c47b
-} // c48
-packet // c49a
-  // c49b
-Logout // c50
-{ // c51a
-  // c51b
+] // c42a
+  // c42b
+Side2 // c43a
+  // c43b
+, // c44
+i8 // c45a
+  // c45b
+Acct
+    // c46
+, } // c48
+packet Logout // c50a
+  // c50b
+{ // c51
 int8 // c52
 x
     // c53
-, // c54a
-  // c54b
-} // c55
-packet
+, // c54
+} packet
     // c56
-Order // c57a
-  // c57b
-{ char[]
-    // c59
-Acct ,
-    // c61
-zchar[ // c62a
-  // c62b
-8 // c63
-] count // c65a
+Order { // c58a
+  // c58b
+char[] // c59a
+  // c59b
+Acct
+    // c60
+, // c61
+zchar[ // c62
+8 ] // c64
+count // c65a
   // c65b
 ,
     // c66
 u32 // c67
-OrderId
-    // c68
-, uint8 lastPx // c71a
-  // c71b
+OrderId // c68a
+  // c68b
+, // c69
+uint8 // c70a
+  // c70b
+lastPx // c71
+, u16 clOrdID // c74
+, // c75a
+  // c75b
+zchar[ // c76
+7 ] Note
+    // c79
+, // c80a
+  // c80b
+} root // c82
+packet
+    // c83
+Reject
+    // c84
+{ // c85a
+  // c85b
+@leftPad (
+    // c87
+' '
+    // c88
+)
+    // c89
+char[ // c90a
+  // c90b
+8 // c91
+] // c92
+Side2 ,
+    // c94
+i8
+    // c95
+clOrdID // c96a
+  // c96b
+, // c97
+repeat // c98a
+  // c98b
+f32 // c99a
+  // c99b
+x // c100a
+  // c100b
+, // c101
+u32 lastPx // c103a
+  // c103b
 ,
-    // c72
-u16
-    // c73
-clOrdID // c74
-,
-    // c75
-zchar[
-    // c76
-7
-    // c77
-] // c78a
-  // c78b
-Note // c79
-, } // c81a
-  // c81b
-root
-    // c82
-packet // c83
-Reject // c84a
-  // c84b
-{ // c85
-@leftPad ( ' ' ) // c89a
-  // c89b
-char[
-    // c90
-8 ]
-    // c92
-Side2 // c93
-, // c94a
-  // c94b
-i8 // c95a
-  // c95b
-clOrdID // c96
-, // c97a
-  // c97b
-repeat
-    // c98
-f32
-    // c99
-x , // c101
-u32 // c102a
-  // c102b
-lastPx , // c104
-match lastPx as
-    // c107
-Body
-    // c108
-{ // c109a
-  // c109b
+    // c104
+match // c105a
+  // c105b
+lastPx // c106
+as Body // c108a
+  // c108b
+{
+    // c109
 [
     // c110
-30 ,
-    // c112
-147 ] : // c115a
+30 , // c112a
+  // c112b
+147 // c113a
+  // c113b
+]
+    // c114
+: // c115a
   // c115b
-Heartbeat , 134 // c118a
-  // c118b
-: // c119a
-  // c119b
-Leg // c120
-, // c121
-183 // c122
+Heartbeat
+    // c116
+, 134 : Leg // c120
+,
+    // c121
+183
+    // c122
 :
     // c123
-Logout
-    // c124
-, // c125a
-  // c125b
-40 // c126
-: // c127a
-  // c127b
-Order
-    // c128
-, // c129a
-  // c129b
-}
-    // c130
-, u16 // c132a
-  // c132b
-Ref // c133
-@calculatedFrom( // c134a
-  // c134b
-""CRC32"" ) // c136a
-  // c136b
-, // c137
-} // c138
+Logout , // c125
+40 // c126a
+  // c126b
+: Order // c128
+, } // c130
+, // c131
+u16 Ref // c133a
+  // c133b
+@calculatedFrom( // c134
+""CRC32""
+    // c135
+) , } // c138
 ")).
-Eval vm_compute in ("<<<M53>>>" ++ check (runes_of_ascii "root
-packet u {
-    char[007 ]x_y_z
-`two words` , int16 u8x
-    @calculatedFrom( ""packet""
-    )
-    // @lengthOf(
-    ,
-    float64
-    falsey
-@calculatedFrom( ""\" ++ [233]%N ++ runes_of_ascii """ ) `u8 x,`
-    ,
-    trueish @calculatedFrom(
-    """ ++ [233]%N ++ runes_of_ascii "t" ++ [233]%N ++ runes_of_ascii """ )
-`tab	here` , @tag( 1	) repeat char[
-4294967296 ]
-    // " ++ [128512]%N ++ runes_of_ascii " emoji
-    u , match
-    // " ++ [27880; 37322]%N ++ runes_of_ascii "
-    i8i8
-    //
-    as // " ++ [128512]%N ++ runes_of_ascii " emoji
-o
-    { [""a\\""
-    ]:
-    matchKey,[ 0123456789
-    //x
-    , ""x y""  , 0 ,
-/// triple
-/// triple
-00 , ""a	b"" ,""{,}"" , // a // b
-""{,}"" ,
-007 ] :
-u8x,
-255 : u128 , [
-""" ++ [28040; 24687]%N ++ runes_of_ascii """
-    , 0123456789	,65535 ,
-    // a // b
-    ""\n"" ] : _x, 7 :
-falsey} , @leftPad ( )// " ++ [128512]%N ++ runes_of_ascii " emoji
-charz @lengthOf(A ) , // `tick` ""quote"" 'q'
-} root packet stringy
-{
-    repeat
-    MetaDataX {float32
-T , string
-    x_y_z `a\`
-, repeat	_x  zchar`u8 x,` , }
-    , } packet Foo {
-    @lengthOf(  roots
-    ) calculatedFrom a1, zchar[ 0123456789]	_x,
-// @lengthOf(
-// trailing space 
-match //
-roots as MetaDataX // c
-{ /// triple
-42 :	_x ,
-3// a // b
-:msg_type  7 : a1, """"	:i8i8 , //x
-[ """ ++ [233]%N ++ runes_of_ascii "t" ++ [233]%N ++ runes_of_ascii """ ]: i8i8 , 00 : leftPad ,
-    } , @calculatedFrom( // @lengthOf(
-"""" ) char[  00 // c
-]
-Foo
-@lengthOf( uint8x) ,  f32 chars , }packet
-    metadata
-    //	t
-    { } MetaData i64_ // packet A { u8 x, }
-{ lengthOf options1 ,
-// @lengthOf(
-//x
-a1 A,
-    x Header ,
-    }
-")).
-Eval vm_compute in ("<<<M1816>>>" ++ check (runes_of_ascii "// a // b
-packet stringy {
-    string zchar,
-    repeat T,
-    match u as charz {
-        007 : float,
-        ""\" ++ [233]%N ++ runes_of_ascii """ : Logon,
-        ""a	b"" : pack,
-    },
-    match uint8x as roots {
-        1 : len,
-    },
-}
-
-packet zchar {
-    roots options1 `// not a comment`,
-    int64 As,
-    i16 float @lengthOf(falsey) `a\`,
-    int64 msg_type `tab	here`,
-    @tag(0)
-    repeat uint8x,
-    @lengthOf(x)
-    repeat metadata,
-    zchar[0] int,
-    uint64 zchar,
-    zchar[7] msg_type,
-    @calculatedFrom(""" ++ [28040; 24687]%N ++ runes_of_ascii """)
-    crc,
-}
-
-root packet zchar {
-    repeat leftPad,
-}
-
-packet A {
-    @lengthOf(string_)
-    x @lengthOf(options1) `two words`,
-    string len,
-}
-
-packet falsey {
-    i64_ @calculatedFrom(""{,}""),
-    repeat string chars,
-    zchar[7] calculatedFrom,
-    Header {
-        char u `two words`,
-        repeat char[] tag `say ""hi""`,
-        Z9_ @lengthOf(T) `line1
-                line2`,
-    },
-    msg_type @calculatedFrom(""// no comment""),
-    @rightPad('\x00')
-    @lengthOf(asx)
-    falsey,
-}// packet A { u8 x, }")).
-Eval vm_compute in ("<<<M1309>>>" ++ check (runes_of_ascii "// top
-packet // c0a
-  // c0b
-A { // c2
-u8 // c3a
-  // c3b
-a , // c5
-} // c6a
-  // c6b
-packet // c7a
-  // c7b
-B {
-    // c9
-u16 b // c11
-, } // c13a
-  // c13b
-packet // c14
-C
-    // c15
-{
-    // c16
-u32
-    // c17
-c // c18
-, // c19a
-  // c19b
-}
-    // c20
-root packet // c22a
-  // c22b
-M // c23
-{ u16 Kc
-    // c26
-,
-    // c27
-u16 // c28a
-  // c28b
-Kb , // c30
-u16 Ka
-    // c32
-, match // c34a
-  // c34b
-Kc // c35
-as X
-    // c37
-{
-    // c38
-9 // c39
-:
-    // c40
-A
-    // c41
-, 10 :
-    // c44
-B
-    // c45
-,
-    // c46
-} , match
-    // c49
-Kb // c50
-as // c51a
-  // c51b
-Y // c52
-{ 2 // c54a
-  // c54b
-:
-    // c55
-C , // c57
-1 // c58
-: A , // c61a
-  // c61b
-} // c62
-, // c63a
-  // c63b
-match
-    // c64
-Ka as // c66
-Z // c67
-{
-    // c68
-1 // c69a
-  // c69b
-: B // c71a
-  // c71b
-, // c72
-} // c73a
-  // c73b
-, // c74
-A // c75a
-  // c75b
-, // c76
-B
-    // c77
-,
-    // c78
-C , // c80
-} ")).
-Eval vm_compute in ("<<<M168>>>" ++ check (runes_of_ascii "options
-//x
-// @lengthOf(
-{
-    Foo =""// no comment""
-/// triple
-//	t
-; }
-packet float {
-} packet
-    len { @lengthOf(
-    _x ) stringy{
-    metadata	@calculatedFrom( ""a\\"" )
-, } ,
-//x
-//
-}	packet asx {
-@tag( 0 ) repeat float64
-A`say ""hi""` ,
-//
-// trailing space 
-i16 int
-    `say ""hi""` , @calculatedFrom( """ ++ [128512]%N ++ runes_of_ascii """) lengthOf Header `two words` ,
-f32a
-    zchar , @rightPad
-    ( '0'
-)repeat string_
-    // packet A { u8 x, }
-    chars ``  , @tag( 4294967296)
-    @calculatedFrom( ""a	b"" )repeat
-    msg_type,  @leftPad( ) repeat f64 _x ,	repeat As { Logon @lengthOf(
-calculatedFrom) `two words` ,
-    repeat u64 o `u8 x,`	, } , @calculatedFrom(
-""packet"" ) repeat // @lengthOf(
-uint8 u ,} packet
-uint8x{@leftPad ( '0'
-    )
-//	t
-//x
-zchar[
-// packet A { u8 x, }
-// " ++ [27880; 37322]%N ++ runes_of_ascii "
-255
-    ]	metadata `a\`
-    ,//
-} // `tick` ""quote"" 'q'")).
-Eval vm_compute in ("<<<M1504>>>" ++ check (runes_of_ascii "
-// top
-options 
-    // c0
-  {  
-      // c1
-zchar 
-
-    // c2
-  	= 
-        // c3
-
-	true
-    // c4
-      ; 
-  // c5
-	  Pad 
-	    // c6
-=
-    // c7
-char[  
-  // c8
-	00 
-
-// c9
-  ]
-// c10
-a1
-	// c11
-	= 
-  // c12
-	uint32 
-      // c13
-
-BodyLength 
-    // c14
-	=
-    // c15
-
-true 
-	// c16
-
-  ; 
-
-    // c17
-	} 
-
-    // c18
-  root
-    // c19
-    packet 
-        // c20
-  T
-        // c21
-      { 
-        // c22
-    @lengthOf(
-// c23
-	repeatCount 
-// c24
-)
-    // c25
-@tag(
-
-// c26
-
-1  
-  // c27
-
-)
-
-    // c28
-	@calculatedFrom(
-// c29
-	""a	b"" 
-// c30
-  ) 
-// c31
-      string
-    // c32
-stringy
-
-// c33
+Eval vm_compute in ("<<<M1861>>>" ++ check (runes_of_ascii "packet  asx
+{leftPad 
 @calculatedFrom(
-    // c34
-    ""\n"" 
-  // c35
-	  )
-// c36
+    """ ++ [233]%N ++ runes_of_ascii "t" ++ [233]%N ++ runes_of_ascii """ )
 
-`u8 x,`
+,@leftPad
+	( '0'
 
-    // c37
-    , 
-	    // c38
-} 
-    // c39")).
-Eval vm_compute in ("<<<M1411>>>" ++ check (runes_of_ascii "packet tag {
-    @calculatedFrom(""x y"")
-    lengthOf {
-        options1 `
-                `,
-    },
-    @tag(7)
-    int {
-        //x
-        // " ++ [27880; 37322]%N ++ runes_of_ascii "
-        char[007] calculatedFrom @lengthOf(metadata),
-        tag @lengthOf(falsey),
-        f32 calculatedFrom `{ , }`,
-        i8i8 {
-            string i64_ @lengthOf(asx) `it's`,
-            u @calculatedFrom(""\n""),
-        },
-    },
-    @calculatedFrom(""abc"")
-    @leftPad(' ')
-    uint64 calculatedFrom,// " ++ [27880; 37322]%N ++ runes_of_ascii "
-}
+)
+// trailing space 
+    u8x	As	`crlf
+line` ,
 
-packet o {
-    Header,
-    @lengthOf(i8i8)
-    float32 Pad,
-    char[42] leftPad @calculatedFrom(""""),
-    @tag(255)
-    body u,
-}
+    char[
+	3
+]
+asx
 
-packet lengthOf {
-    @tag(255)
-    char[0123456789] o `
-        `,
-}")).
-Eval vm_compute in ("<<<M206>>>" ++ check (runes_of_ascii "//x
-root
-    // " ++ [128512]%N ++ runes_of_ascii " emoji
-    packet
-// `tick` ""quote"" 'q'
-/// triple
-float{options1 A
-,@tag(
-42 )
-    u8x{ tag //x
-@calculatedFrom(	""\" ++ [233]%N ++ runes_of_ascii """) // packet A { u8 x, }
-`tab	here` ,
-    }
-    , int16 asx ,
-    @lengthOf( o
-    )
-@rightPad( ) repeat int
-/// triple
-/// triple
-Logon,@calculatedFrom(""// no comment"" )  @leftPad('\x00')
-    @rightPad('0'	)	zchar[ 65535 //x
-] o `
-`
+@calculatedFrom( ""{,}""
+)
+
+, 
+// @lengthOf(
+
+// trailing space 
+	  repeat
+u128 { int	{packetx
+    @calculatedFrom(""packet""
+
+)
     ,
-    repeat As{ //x
-repeat uint16 o ,repeat
-char[ // trailing space 
-1
-    ]o ,
-u128
-metadata	, repeat char[7	] Header ,
-    } , @tag( 0123456789
-    ) a1 tag
-    , float32 asx ,
-    repeat // packet A { u8 x, }
-len
-``
-    ,}
-")).
-Eval vm_compute in ("<<<M1888>>>" ++ check (runes_of_ascii "
-packet
-	charz{ 
-        // " ++ [27880; 37322]%N ++ runes_of_ascii "
-/// triple
-      repeat	// c
+	match  T  as  T {	""a	b""
+	:
+o
+	, }
 
-	string
-	int	`" ++ [28040; 24687; 31867; 22411]%N ++ runes_of_ascii "` 
 ,
-@calculatedFrom(""it's"")@tag(
-	255) f64  // a // b
-	  asx
+zchar[
+    00
+]
+lengthOf 
+`{ , }`
+, 
+  /// triple
+    // trailing space 
+  	char[] crc  @calculatedFrom( ""abc""	)
 
-    ,	string T
+,
+    }
+,
+
+    Header	@calculatedFrom( """ ++ [233]%N ++ runes_of_ascii "t" ++ [233]%N ++ runes_of_ascii """) `two words`
+
+    , repeat
+uint8 uint8x , repeat 
+//
+	char[	0123456789
+    ]float	`u8 x,`
+
+, }  ,
+    packetx	x`say ""hi""`
+
+    ,
+	@rightPad
+
+( ) 
+i8i8
+	@calculatedFrom(""x y"" )	,  @leftPad ()
+	BodyLength{ 
+repeat int32
+_x  ``
+	,
+
+    i8 msg_type`doc`  //
+,  }
+,
+
+    }
+    // `tick` ""quote"" 'q'
+
+	// packet A { u8 x, }
+	packet	body{
+	}
+	packet
+    repeatCount {
+    zchar[
+3	]	Packet
+
+, 
+@lengthOf(// @lengthOf(
+	Header
+)
+    i64 
+    // c
+  // c
+Packet
+
+`two words`, zchar[
+65535
+]
+
+    calculatedFrom`tab	here` //	t
+  , match
+
+x  as
+
+leftPad{
+""// no comment""  : 
+rootA  ,""`tick`""
+: o
+,} ,// " ++ [128512]%N ++ runes_of_ascii " emoji
+	  zchar[ 	 //	t
+	3  ]  
+  // packet A { u8 x, }
+
+	// " ++ [27880; 37322]%N ++ runes_of_ascii "
+		u128
+@calculatedFrom( ""{,}""
+	)
+`{ , }` , 
+}
+
+//	t
+    	options
+    { u
+=char[
+
+42
+
+] 	 // " ++ [27880; 37322]%N ++ runes_of_ascii "
+	  metadata 
+=
+
+""a\\""  ;Logon =
+	string	;Z9_	=u16
+    ; }
+
+")).
+Eval vm_compute in ("<<<M387>>>" ++ check (runes_of_ascii "options {
+	StringPrefixLenType = u16;
+	ArrayPrefixLenType = u16;
+}
+
+packet SampleBinary {
+	uint16 MsgType `" ++ [28040; 24687; 31867; 22411]%N ++ runes_of_ascii "`,
+	u16 BodyLenght @lengthOf(Body) `" ++ [28040; 24687; 20307; 38271; 24230]%N ++ runes_of_ascii "`,
+	match MsgType as Body {
+		1 : Logon,
+		2 : Logout,
+		3 : Heartbeat,
+		4 : RiskControlRequest,
+		5 : RiskControlResponse,
+	},
+	@calculatedFrom(""CRC32"")
+	u32 Ckecksum `" ++ [26657; 39564; 21644]%N ++ runes_of_ascii "`,
+}
+
+packet Logon {
+	@leftPad('0')
+	char[10] UserName `" ++ [29992; 25143; 21517]%N ++ runes_of_ascii "`,
+	string Password `" ++ [23494; 30721]%N ++ runes_of_ascii "`,
+	uint64 ClientId `" ++ [23458; 25143; 31471]%N ++ runes_of_ascii "ID`,
+	u16 HeartbeatInterval `" ++ [24515; 36339; 38388; 38548]%N ++ runes_of_ascii "`,
+}
+
+packet Logout {
+	@rightPad('0')
+	char[10] UserName `" ++ [29992; 25143; 21517]%N ++ runes_of_ascii "`,
+	uint64 ClientId `" ++ [23458; 25143; 31471]%N ++ runes_of_ascii "ID`,
+}
+
+packet Heartbeat {
+}
+
+packet RiskControlRequest {
+	string UniqueOrderId `" ++ [21807; 19968; 35746; 21333; 21495]%N ++ runes_of_ascii "`,
+	char[16] ClOrdID `" ++ [23458; 25143; 35746; 21333; 21495]%N ++ runes_of_ascii "`,
+	char[3] MarketID `" ++ [24066; 22330]%N ++ runes_of_ascii "id`,
+	char[12] SecurityID `" ++ [35777; 21048; 20195; 30721]%N ++ runes_of_ascii "`,
+	char Side `" ++ [20080; 21334; 26041; 21521]%N ++ runes_of_ascii "`,
+	char OrderType `" ++ [35746; 21333; 31867; 22411]%N ++ runes_of_ascii "`,
+	u64 Price `" ++ [20215; 26684]%N ++ runes_of_ascii "`,
+	u32 Qty `" ++ [25968; 37327]%N ++ runes_of_ascii "`,
+	repeat string ExtraInfo `" ++ [38468; 21152; 20449; 24687]%N ++ runes_of_ascii "`,
+	repeat SubOrder {
+		char[16] ClOrdID `" ++ [23376; 35746; 21333; 21495]%N ++ runes_of_ascii "`,
+		u64 Price `" ++ [23376; 35746; 21333; 20215; 26684]%N ++ runes_of_ascii "`,
+		u32 Qty `" ++ [23376; 35746; 21333; 25968; 37327]%N ++ runes_of_ascii "`,
+	},
+}
+
+packet RiskControlResponse {
+	string UniqueOrderId `" ++ [21807; 19968; 35746; 21333; 21495]%N ++ runes_of_ascii "`,
+	i32 Status `" ++ [29366; 24577]%N ++ runes_of_ascii "`,
+	string Msg `" ++ [32467; 26524; 20449; 24687]%N ++ runes_of_ascii "`,
+	repeat Detail,
+}
+
+packet Detail {
+	string RuleName `" ++ [35268; 21017; 21517; 31216]%N ++ runes_of_ascii "`,
+	u16 Code `" ++ [21407; 22240; 20195; 30721]%N ++ runes_of_ascii "`,
+}")).
+Eval vm_compute in ("<<<M1341>>>" ++ check (runes_of_ascii "options {
+    FixedStringPadFromLeft = true;
+    FixedStringPadChar = '0';
+}
+packet Leg {
+    InPrice0 {
+        repeat string clOrdID,
+        int16 msgKind,
+        zchar[5] Px,
+    },
+    i16 f1,
+    repeat f64 Side2,
+    string Acct,
+}
+packet Cancel {
+    zchar[4] clOrdID,
+    string seqNo,
+    Leg,
+    @leftPad('0') char[11] OrderId,
+}
+packet Quote {
+    repeat char[4] sym,
+    f64 OrderId,
+    repeat Leg,
+    repeat i64 f1,
+    int16 Note,
+    zchar[3] count,
+}
+root packet Ack {
+    @leftPad(' ') char[10] sym,
+    InPx60 {
+        Cancel,
+        repeat char[1] f1,
+        string Tail,
+        repeat InNote55 {
+            int8 count,
+            f64 f1,
+            repeat Cancel,
+        },
+        char[] tag7,
+        repeat string msgKind,
+    },
+    u8 lastPx,
+    match lastPx as Body {
+        152 : Quote,
+        173 : Cancel,
+        4 : Leg,
+    },
+    u16 Ref @calculatedFrom(""CR\
+C32""),
+}
+")).
+Eval vm_compute in ("<<<M104>>>" ++ check (runes_of_ascii "options{  matchKey = ""x y""
+    ;	MetaDataX
+= '0'
+;
+} packet // c
+msg_type { @rightPad ( ' '  )repeat u128 body	, match body	as /// triple
+pack{ [ ""\" ++ [233]%N ++ runes_of_ascii """ , ""1"" ]: BodyLength
+, [ 255
+, ""a	b"" , ""a\\"" , ""{,}""
+,  007 , 007 ,
+    0123456789
+] : options1	,	} ,@leftPad
+()@lengthOf(charz	)
+@tag(	42
+) o{	i32 msg_type @lengthOf( A )// " ++ [27880; 37322]%N ++ runes_of_ascii "
+`doc` ,zchar[ 1] charz  , // c
+i8 packetx`{ , }`,
+msg_type `crlf
+line`
+    , }	,
+@calculatedFrom( ""\" ++ [233]%N ++ runes_of_ascii """ ) Z9_ @calculatedFrom(
+""" ++ [128512]%N ++ runes_of_ascii """ )`tab	here` ,
+repeat char[] Foo ,
+repeat zchar[ 0123456789]	u128
+, }	packet f32a{
+    f32a @lengthOf( matchKey )//x
+, @rightPad (
+    ' ' // " ++ [27880; 37322]%N ++ runes_of_ascii "
+)@lengthOf( chars ) _x Foo  `` ,  match
+    body // c
+as
+    body
+    {	[4294967296
+    , ""packet"", 3 , """ ++ [128512]%N ++ runes_of_ascii """
+,
+0123456789  ]
+: T [ ""a\\"" ]// `tick` ""quote"" 'q'
+: T
+, ""\n""
+:
+u8x , }
+//	t
+//x
+,} //x
+root packet lengthOf
+{ }
+")).
+Eval vm_compute in ("<<<M1117>>>" ++ check (runes_of_ascii "// top
+MetaData
+    // c0
+Packet
+    // c1
+{
+    // c2
+}
+    // c3
+packet
+    // c4
+charz
+    // c5
+{
+    // c6
+Foo
+    // c7
+asx
+    // c8
+`it's`
+    // c9
+,
+    // c10
+@lengthOf(
+    // c11
+T
+    // c12
+)
+    // c13
+@calculatedFrom(
+    // c14
+""""
+    // c15
+)
+    // c16
+@calculatedFrom(
+    // c17
+""x y""
+    // c18
+)
+    // c19
+zchar[
+    // c20
+007
+    // c21
+]
+    // c22
+repeatCount
+    // c23
+@lengthOf(
+    // c24
+int
+    // c25
+)
+    // c26
+`a\`
+    // c27
+,
+    // c28
+i8
+    // c29
+string_
+    // c30
+,
+    // c31
+repeat
+    // c32
+options1
+    // c33
+Pad
+    // c34
+,
+    // c35
+}
+    // c36
+root
+    // c37
+packet
+    // c38
+Packet
+    // c39
+{
+    // c40
+int8
+    // c41
+float
+    // c42
+`doc`
+    // c43
+,
+    // c44
+}
+    // c45
+")).
+Eval vm_compute in ("<<<M243>>>" ++ check (runes_of_ascii "// a // b
+packet stringy { @tag( 3 ) // trailing space 
+i64
+    len
+,@calculatedFrom( ""1""  ) char[
+0 ]
+x @lengthOf(Foo )
+,@calculatedFrom( """" )
+body
+// c
+// " ++ [128512]%N ++ runes_of_ascii " emoji
+@lengthOf(
+calculatedFrom )`line1
+line2`
+    , @calculatedFrom( ""it's"" // " ++ [128512]%N ++ runes_of_ascii " emoji
+)// packet A { u8 x, }
+match falsey
+    // packet A { u8 x, }
+    as u8x {[
+""" ++ [128512]%N ++ runes_of_ascii """
+    , // a // b
+42 , 1 ,10 ]
+: Header , } ,
+// trailing space 
+// `tick` ""quote"" 'q'
+} MetaData// " ++ [128512]%N ++ runes_of_ascii " emoji
+stringy{ f32a
+    u128 `{ , }` , char[ // a // b
+10 ]u128	, chars _x , zchar[ 65535 // trailing space 
+]/// triple
+falsey
+    `{ , }`
+    , _x i64_
+, int32
+Packet
+`crlf
+line` , } MetaData lengthOf
+{
+    }
+// trailing space 
+")).
+Eval vm_compute in ("<<<M1917>>>" ++ check (runes_of_ascii "packet Header {
+    char[10] A `it's`,
+    @calculatedFrom(""" ++ [28040; 24687]%N ++ runes_of_ascii """)
+    calculatedFrom @lengthOf(zchar) `tab	here`,
+    u32 BodyLength,
+    @lengthOf(stringy)
+    //
+    @rightPad(' ')
+    @tag(0123456789)
+    body {
+        match i8i8 as Foo {
+            [7, ""CRC32""] : options1,
+            [
+                ""a\""b"", """ ++ [128512]%N ++ runes_of_ascii """, ""it's"", ""a	b"", ""// no comment"",
+                ""it's"", 7, ""abc""
+            ] : As,
+            1 : _x,
+            // " ++ [128512]%N ++ runes_of_ascii " emoji
+            //
+        },
+        repeat uint8x {
+            crc @calculatedFrom(""a\\""),
+        },
+        repeat i8 tag,// " ++ [128512]%N ++ runes_of_ascii " emoji
+    },
+}")).
+Eval vm_compute in ("<<<M1571>>>" ++ check (runes_of_ascii "
+root 
+packet
+Logon
+    {
+
+@calculatedFrom(
+
+"""" ) @lengthOf(	int
+
+    ) @tag(  3 )
+match
+_x 
+as	// a // b
+    i64_
+
+    {
+10 :
+    asx
+
+    // `tick` ""quote"" 'q'
+	  /// triple
+  """ ++ [128512]%N ++ runes_of_ascii """
+:
+
+crc	,
+	[0
+	,
+007
+
+]  :float
+	,  // trailing space 
+		} 
+,
+
+repeat 	 //	t
+  	uint16
+
+    leftPad
+
+,
+    } 
+
+    // " ++ [27880; 37322]%N ++ runes_of_ascii "
+  packet
+
+charz{  }  MetaData
+	int
+
+{  
+  //
+// trailing space 
+      zchar[
+    4294967296
+
+]matchKey
+	, asx rootA
     `doc`
 
-    ,
-zchar[
+,Foo
+	string_
+	`// not a comment` , 
+char[] u8x
+,  // `tick` ""quote"" 'q'
+    roots
+    float, }")).
+Eval vm_compute in ("<<<M1883>>>" ++ check (runes_of_ascii "
 
-007
-    ]
-    tag	@lengthOf(  //
-  	Z9_ ) 
-`// not a comment` 
-,
-} options  {	u  = u16  ;
+  // top
 
-} 
-MetaData
+  MetaData
+	// c0
 
-chars
-    {i16 falsey, 
-f64 pack
-,char[
-    1	] asx `it's`
-	,	char[]
-	body
-,  
-      // `tick` ""quote"" 'q'
+uint8x // c1
+	  {char[] 
 
-  //x
-	}packet 
-leftPad
-	{
-@rightPad 
-( 
-    // @lengthOf(
-    //x
-	)
-repeat Pad
-float
+// c3
 
-`{ , }`, }
+  f32a// c4a
+	// c4b
+  `// not a comment`  
+      // c5
+,// c6a
+  // c6b
+  float32 // c7
 
-    options
-    { roots =
-true
+  roots 
+	// c8
+	, 	 // c9
+  	char[ // c10a
 
-; }")).
-Eval vm_compute in ("<<<M1237>>>" ++ check (runes_of_ascii "// top
-options // c0
-{ // c1
-zchar // c2
-= // c3
-true // c4
-; // c5
-Pad // c6
-= // c7
-char[ // c8
-00 // c9
-] // c10
-a1 // c11
-= // c12
-uint32 // c13
-BodyLength // c14
-= // c15
-true // c16
-; // c17
-} // c18
-root // c19
-packet // c20
-T // c21
-{ // c22
-@lengthOf( // c23
-repeatCount // c24
-) // c25
-@tag( // c26
-1 // c27
-) // c28
-@calculatedFrom( // c29
-""a	b"" // c30
-) // c31
-string // c32
-stringy // c33
-@calculatedFrom( // c34
-""\n"" // c35
-) // c36
-`u8 x,` // c37
-, // c38
-} // c39
-")).
-Eval vm_compute in ("<<<M1363>>>" ++ check (runes_of_ascii "options {
+// c10b
+  	7// c11
+  ]// c12
+
+u8x  // c13
+	, 	 // c14a
+  // c14b
+  zchar[
+	    // c15
+    10 
+	// c16
+  ]  // c17
+
+f32a 	 // c18
+
+	,	// c19a
+		// c19b
+      u64
+	// c20
+	pack 	 // c21a
+  // c21b
+	,
+
+u16  
+  // c23
+
+	pack  // c24a
+	// c24b
+  ,
+    // c25
+
+	}
+    // c26")).
+Eval vm_compute in ("<<<M1375>>>" ++ check (runes_of_ascii "options {
     LittleEndian = true;
     StringPrefixLenType = u64;
     ArrayPrefixLenType = u16;
@@ -760,151 +800,175 @@ root packet Logout {
     match Flags as Body {
         25 : Logon,
     },
-    u16 Qty @calculatedFrom(""CRC32""),
+    u16 Qty @calculatedFrom(""CR\
+C32""),
 }
 ")).
-Eval vm_compute in ("<<<M292>>>" ++ check (runes_of_ascii "packet/// triple
-matchKey { float32 float,@calculatedFrom(""a\\""// " ++ [27880; 37322]%N ++ runes_of_ascii "
-) @rightPad
-( '\x00' )i16 tag  @calculatedFrom(""abc"" ) ,
-repeat zchar[255
-] pack
-    , @lengthOf( Z9_ ) tag , } // trailing space 
-root
-packet rootA { repeat metadata { Logon , }, @tag( 10)
-@lengthOf( A )
-@tag( 007)
-u32
-    options1, match float as u {0123456789 : u8x ,} ,	}// " ++ [27880; 37322]%N ++ runes_of_ascii "
-root packet lengthOf { }
-")).
-Eval vm_compute in ("<<<M1928>>>" ++ check (runes_of_ascii "// top
-MetaData Packet {
-}
-
-// c3
-packet charz {
-    // c6
-    Foo asx `it's`,// c10
-    @lengthOf(T)
-    @calculatedFrom("""")
-    @calculatedFrom(""x y"")
-    // c19
-    zchar[007] repeatCount @lengthOf(int) `a\`,// c28
-    i8 string_,// c31
-    repeat options1 Pad,// c35
-}// c36
-
-root packet Packet {
-    // c40
-    int8 float `doc`,// c44
-}// c45")).
-Eval vm_compute in ("<<<M1555>>>" ++ check (runes_of_ascii "
-options { LittleEndian 
-= false
-	; StringPrefixLenType=
-    u16  ;
-    }
-    packet
-Heartbeat { @rightPad(  '0'
-    )	char[ 7	]seqNo
-
-    ,  uint64
-
-    Tail
-    , i16  Flags ,
-	u16
-
-msgKind ,}root
-
-    packet
-	Reject
-    {
-	zchar[3
-	]tag7
-,repeat
-Heartbeat ,
-
-    repeat  string clOrdID
-,
-}
-
-")).
-Eval vm_compute in ("<<<M1491>>>" ++ check (runes_of_ascii "packet tag {
-}
-
-packet falsey {
-    string charz @lengthOf(zchar),
-    string u @calculatedFrom(""" ++ [233]%N ++ runes_of_ascii "t" ++ [233]%N ++ runes_of_ascii """) `// not a comment`,
-    @leftPad('0')
-    char[] leftPad @calculatedFrom(""a	b"") `// not a comment`,
-    @calculatedFrom(""`tick`"")
-    @lengthOf(roots)
-    repeat MetaDataX,
-}")).
-Eval vm_compute in ("<<<M1375>>>" ++ check (runes_of_ascii "packet
-    Sub 
-{u8 a	, 
-@calculatedFrom(  ""CRC16""
-
-)
-	i32 SubSum 
-,
-}
-    root
-
+Eval vm_compute in ("<<<M1271>>>" ++ check (runes_of_ascii "options { // c1a
+  // c1b
+LittleEndian
+    // c2
+= // c3
+true // c4
+; } // c6a
+  // c6b
+packet B { u8 // c10a
+  // c10b
+a
+    // c11
+, // c12a
+  // c12b
+string // c13
+s // c14
+, } // c16
+root // c17a
+  // c17b
 packet
-    Frame {
-u16 
-MsgType	,
-u16	BodyLen	@lengthOf(
-    Body) 
-, 
-Sub
-	Body	,
-string
-	note
-	,
+    // c18
+P // c19
+{ u16 // c21
+L @lengthOf( B ) // c25a
+  // c25b
+, // c26a
+  // c26b
+B // c27a
+  // c27b
+,
+    // c28
+u8
+    // c29
+t // c30
+, // c31
+} // c32a
+  // c32b
+")).
+Eval vm_compute in ("<<<M1877>>>" ++ check (runes_of_ascii "// top
+packet A {
+    // c2
+    u8 a,
+}// c6a
 
-@calculatedFrom(""CRC16"" )
+// c6b
+packet B {
+    u16 b,
+    // c12
+}
 
-i32	Checksum  ,
-	u8 tail 
+// c13
+root packet P {
+    // c17a
+    // c17b
+    u8 K1,// c20
+    u8 K2,// c23a
+    // c23b
+    match K1 as M1 {
+        // c28a
+        // c28b
+        1 : A,
+        // c32a
+        // c32b
+    },
+    match K2 as M2 {
+        1 : B,
+    },
+    // c45
+}// c46")).
+Eval vm_compute in ("<<<M1402>>>" ++ check (runes_of_ascii "options {
+    LittleEndian = true;
+}
+
+packet Logon {
+    u8 x,
+}
+
+packet Logout {
+    u16 reason,
+}
+
+root packet Frame {
+    u64 Kind,
+    u64 Kind2,
+    match Kind as Body {
+        1 : Logon,
+        [2, 3, 4] : Logout,
+        100 : Logon,
+    },
+    match Kind2 as Trailer {
+        0 : Logout,
+    },
+}")).
+Eval vm_compute in ("<<<M1384>>>" ++ check (runes_of_ascii "
+packet
+
+    Sub { u8	a ,	@calculatedFrom(
+""CRC16"" )
+
+    i32
+	SubSum
+
+    ,} root 
+packet Frame
+	{
+    u16	MsgType 
 ,
 
-}")).
-Eval vm_compute in ("<<<M18>>>" ++ check (runes_of_ascii "packet roots
-// a // b
-// " ++ [128512]%N ++ runes_of_ascii " emoji
-{ // " ++ [27880; 37322]%N ++ runes_of_ascii "
-@tag(0
-)
-    repeat // `tick` ""quote"" 'q'
-zchar[
-/// triple
+    u16
+BodyLen
+@lengthOf(
+    Body
+
+) 
+,
+Sub  Body 
+,  string
+
+    note  , @calculatedFrom(
+
+""CRC16""
+
+) 
+i32	Checksum
+
+    ,
+u8 tail,
+	}
+")).
+Eval vm_compute in ("<<<M267>>>" ++ check (runes_of_ascii "packet trueish{
+@leftPad (// @lengthOf(
+'0'  ) @tag(  3/// triple
+) @tag(
+7 ) repeat
 //x
-0
-]x , } options { As =""\" ++ [233]%N ++ runes_of_ascii """ ;pack = ' ' ; int = // `tick` ""quote"" 'q'
-'\x00' ; options1 =
-""`tick`"" ; }")).
-Eval vm_compute in ("<<<M1868>>>" ++ check (runes_of_ascii "  root packet
-    As	{ //
-	char  charz@lengthOf(	packetx)	`{ , }`
-
-,	//
-
-char[ 0123456789 ]	MetaDataX
-	// " ++ [27880; 37322]%N ++ runes_of_ascii "
-      // `tick` ""quote"" 'q'
-`it's`,
-	zchar[
-
-7]
-
-o
-
-    `u8 x,` ,
-	} ")).
+// @lengthOf(
+matchKey
+{ u32 u,
+}  , @lengthOf( chars
+) @calculatedFrom(
+""a	b"") @tag( 0123456789
+    )zchar[255 ]Pad ,  } root
+    packet u { }
+")).
+Eval vm_compute in ("<<<M273>>>" ++ check (runes_of_ascii "root packet string_ { @leftPad (
+    ' ' )  chars { repeat
+zchar[ 0
+]  tag ,string falsey,// " ++ [128512]%N ++ runes_of_ascii " emoji
+repeat  char[ 007] body  `two words`
+    , } , @calculatedFrom(
+""// no comment"" ) Foo T
+    , // " ++ [128512]%N ++ runes_of_ascii " emoji
+}
+")).
+Eval vm_compute in ("<<<M1603>>>" ++ check (runes_of_ascii "packet A {
+    Inner {
+        match k as n {
+            [
+                1, 22, 007, 4, 5,
+                66, 7, 8, 9, 10,
+                11
+            ] : B,
+        },
+    },
+}")).
 Eval vm_compute in ("<<<M336>>>" ++ check (runes_of_ascii "
 packet msg_type
 {
@@ -939,17 +1003,18 @@ a1
     { } options {packetx
     = '\x00'	; u128= ""a	b""  ; }
 ")).
-Eval vm_compute in ("<<<M1441>>>" ++ check (runes_of_ascii "packet A {
-    Inner {
-        match k as n {
-            [
-                1, 22, 007, 4, 5,
-                66
-            ] : B,
-        },
-    },
+Eval vm_compute in ("<<<M1553>>>" ++ check (runes_of_ascii "packet Logon {
+    metadata @calculatedFrom(""a\\""),
+    @tag(42)
+    // " ++ [128512]%N ++ runes_of_ascii " emoji
+    @tag(65535)
+    repeat u16 o `line1
+    line2`,
+}
+
+packet float {
 }")).
-Eval vm_compute in ("<<<M517>>>" ++ check (runes_of_ascii "packet uint8x
+Eval vm_compute in ("<<<M522>>>" ++ check (runes_of_ascii "packet uint8x
 { match pack
     as msg_type	{
     0123456789 :	float
@@ -958,234 +1023,253 @@ Eval vm_compute in ("<<<M517>>>" ++ check (runes_of_ascii "packet uint8x
 } packet //	t
 a1
     { } options {packetx
-    = '\x00'	; u128""a	b"" =  ; }
+    = '\x00'	; u128= ;  ""a	b"" }
 ")).
-Eval vm_compute in ("<<<M503>>>" ++ check (runes_of_ascii "packet uint8x
-{ match pack
-    as msg_type	{
-    0123456789 :	float
-}
-,
-} packet //	t
-a1
-    { } options {packetx
-    = char	; u128= ""a	b""  ; }
-")).
-Eval vm_compute in ("<<<M691>>>" ++ check (runes_of_ascii "// @lengthOf(
+Eval vm_compute in ("<<<M700>>>" ++ check (runes_of_ascii "// @lengthOf(
 packet i8i8 { u128 o , }
-options f64 MetaDataX = true;
+options { MetaDataX = true true;
     BodyLength =""packet"" x_y_z= 007
 crc //x
 = ""abc"" ;
     msg_type =
 i16 }")).
-Eval vm_compute in ("<<<M694>>>" ++ check (runes_of_ascii "// @lengthOf(
+Eval vm_compute in ("<<<M695>>>" ++ check (runes_of_ascii "// @lengthOf(
 packet i8i8 { u128 o , }
 options { MetaDataX = true;
-    = BodyLength""packet"" x_y_z= 007
+    BodyLe@xngth =""packet"" x_y_z= 007
 crc //x
 = ""abc"" ;
     msg_type =
 i16 }")).
-Eval vm_compute in ("<<<M1263>>>" ++ check (runes_of_ascii "
-packet B {u8 
-a ,
-}  root	packet P
-{
-
-    u8
-K, 
-u64	L
-@lengthOf(
-
-Body
-)	, match
-    K
-as
-
-    Body
-{ 1
-
-    : 
-B
-
-,
-}	, }
-
-")).
-Eval vm_compute in ("<<<M1270>>>" ++ check (runes_of_ascii "options {
-    LittleEndian = true;
-}
-packet B {
-    u8 a,
-    string s,
-}
-root packet P {
-    u16 L @lengthOf(B),
-    B,
-    u8 t,
-}
-")).
-Eval vm_compute in ("<<<M504>>>" ++ check (runes_of_ascii "packet uint8x
-{ match pack
-    as msg_type	{
-    0123456789 :	float
-}
-,
-} packet //	t
-a1
-    { } options {packetx
-    =")).
-Eval vm_compute in ("<<<M1154>>>" ++ check (runes_of_ascii "MetaData leftPad { chars MetaDataX ,
-// c
-} packet repeatCount { char[ 255 ] uint8x `" ++ [233]%N ++ runes_of_ascii "` , } MetaData pack { As Foo , }")).
-Eval vm_compute in ("<<<M1186>>>" ++ check (runes_of_ascii "MetaData leftPad { chars MetaDataX , } packet repeatCount { char[ 255 ] uint8x `" ++ [233]%N ++ runes_of_ascii "` , } MetaData pack { As Foo
-// c
-, }")).
-Eval vm_compute in ("<<<M239>>>" ++ check (runes_of_ascii "options { lengthOf =3
-trueish
-// packet A { u8 x, }
-// trailing space 
-=
-    true
-; calculatedFrom =
-007;} 	 ")).
-Eval vm_compute in ("<<<M1797>>>" ++ check (runes_of_ascii "  packet	A { match  k as
-	n{  [
-    ""a""
-    ,
-22 
-,
-
-    ""c c"",
-    4	, ""e""
-    ] :B 2
-    :
-C}
-,  }
-")).
-Eval vm_compute in ("<<<M920>>>" ++ check (runes_of_ascii "packet A {
-    Inner {
-        u8 x `a
-b`,
-        Deep {
-            u8 y `a
-b`,
-        },
+Eval vm_compute in ("<<<M715>>>" ++ check (runes_of_ascii "// @lengthOf(
+packet i8i8 { u128 o , options
+} { MetaDataX = true;
+    BodyLength =""packet"" x_y_z= 007
+crc //x
+= ""abc"" ;
+    msg_type =
+i16 }")).
+Eval vm_compute in ("<<<M1907>>>" ++ check (runes_of_ascii "packet A {
+    match k as n {
+        [
+            ""a"", ""bb"", ""c c"", ""d"", ""e"",
+            ""f"", ""g""
+        ] : B,
+        2 : C,
     },
 }")).
-Eval vm_compute in ("<<<M904>>>" ++ check (runes_of_ascii "packet A {
-  match k as n {
-    [1, 22, 007, 4, 5, 66, 7, 8, 9, 10, 11, 12] : B,
-    2 : C
-  },
-}")).
-Eval vm_compute in ("<<<M887>>>" ++ check (runes_of_ascii "packet A {
-  match k as n {
-    [1, 22, ""c c"", 4, 5, ""f"", 7, 8, ""i"", 10] : B
-    2 : C
-  },
-}")).
-Eval vm_compute in ("<<<M870>>>" ++ check (runes_of_ascii "packet A {
-  match k as n {
-    [1, ""bb"", 007, ""d"", 5, ""f"", 7, ""h"", 9] : B
-    2 : C
-  },
-}")).
-Eval vm_compute in ("<<<M859>>>" ++ check (runes_of_ascii "packet A {
-  match k as n {
-    [""a"", 22, ""c c"", 4, ""e"", 66, ""g"", 8] : B
-    2 : C
-  },
-}")).
-Eval vm_compute in ("<<<M592>>>" ++ check (runes_of_ascii "
+Eval vm_compute in ("<<<M1506>>>" ++ check (runes_of_ascii "
 packet
-    asx {match u128 as lengthOf
+	A
+
 {
-//	t
-// `tick` ""quote"" 'q'
- : x ,
-    } ,	}")).
-Eval vm_compute in ("<<<M647>>>" ++ check (runes_of_ascii "// @lengthOf(
+
+    match k
+    as n {  [
+    1 , 22
+	, ""c c"" ,
+
+4
+    , 5 
+,
+	""f""
+,
+7
+
+    ,  8
+	,
+    ""i"" ] :
+	B 2 :
+	C
+
+} 
+,
+
+}")).
+Eval vm_compute in ("<<<M937>>>" ++ check (runes_of_ascii "packet A {
+    u16 len @lengthOf(body) `a
+    b
+  c`,
+    u32 crc @calculatedFrom(""CRC32"") `a
+    b
+  c`,
+    string body,
+}")).
+Eval vm_compute in ("<<<M1141>>>" ++ check (runes_of_ascii "// c
+MetaData leftPad { chars MetaDataX , } packet repeatCount { char[ 255 ] uint8x `" ++ [233]%N ++ runes_of_ascii "` , } MetaData pack { As Foo , }")).
+Eval vm_compute in ("<<<M1174>>>" ++ check (runes_of_ascii "MetaData leftPad { chars MetaDataX , } packet repeatCount { char[ 255 ] uint8x `" ++ [233]%N ++ runes_of_ascii "` ,
+// c
+} MetaData pack { As Foo , }")).
+Eval vm_compute in ("<<<M1457>>>" ++ check (runes_of_ascii "packet A 
+{ 
+match
+k
+    as	n
+    {
+
+[
+
+1	,
+
+""bb""
+
+    ,
+	007
+
+,
+""d""
+
+    , 
+5 ]
+    :
+    B , 2 : C
+	}  ,	}
+
+")).
+Eval vm_compute in ("<<<M880>>>" ++ check (runes_of_ascii "packet A {
+  match k as n {
+    [""a"", ""bb"", ""c c"", ""d"", ""e"", ""f"", ""g"", ""h"", ""i"", ""j""] : B,
+    2 : C
+  },
+}")).
+Eval vm_compute in ("<<<M867>>>" ++ check (runes_of_ascii "packet A {
+  match k as n {
+    [""a"", ""bb"", ""c c"", ""d"", ""e"", ""f"", ""g"", ""h"", ""i""] : B,
+    2 : C
+  },
+}")).
+Eval vm_compute in ("<<<M656>>>" ++ check (runes_of_ascii "// @lengthOf(
 packet i8i8 { u128 o , }
 options { MetaDataX = true;
-    BodyLength =")).
-Eval vm_compute in ("<<<M834>>>" ++ check (runes_of_ascii "packet A {
+    BodyLength =""packet"" x_y_z")).
+Eval vm_compute in ("<<<M886>>>" ++ check (runes_of_ascii "packet A {
   match k as n {
-    [1, 22, ""c c"", 4, 5, ""f""] : B,
+    [1, 22, ""c c"", 4, 5, ""f"", 7, 8, ""i"", 10] : B,
     2 : C
   },
 }")).
-Eval vm_compute in ("<<<M606>>>" ++ check (runes_of_ascii "
+Eval vm_compute in ("<<<M618>>>" ++ check (runes_of_ascii "
 packet
     asx {match u128 as lengthOf
 {
 //	t
 // `tick` ""quote"" 'q'
-255 :")).
-Eval vm_compute in ("<<<M1099>>>" ++ check (runes_of_ascii "packet A {
-    match k as n {
-        1 : B // c
-        , // d
-    },
-}")).
-Eval vm_compute in ("<<<M739>>>" ++ check (runes_of_ascii "zchar[ i64 @calculatedFrom( match false ) Header char[ @lengthOf( :")).
-Eval vm_compute in ("<<<M918>>>" ++ check (runes_of_ascii "packet A {
-    B b `a
-b`,
-    B `a
-b`,
-    repeat B bs `a
-b`,
-}")).
-Eval vm_compute in ("<<<M812>>>" ++ check (runes_of_ascii "packet A { Inner { match k as n { [1,22,007,4] : B, }, }, }")).
-Eval vm_compute in ("<<<M1485>>>" ++ check (runes_of_ascii "packet A {
-    match k as n {
-        1 : B,
-    },
-}")).
-Eval vm_compute in ("<<<M332>>>" ++ check (runes_of_ascii "MetaData o
-    { } MetaData T  {
-    } options { }")).
-Eval vm_compute in ("<<<M763>>>" ++ check (runes_of_ascii "@calculatedFrom( true ; MetaData """ ++ [233]%N ++ runes_of_ascii "t" ++ [233]%N ++ runes_of_ascii """ match")).
-Eval vm_compute in ("<<<M1240>>>" ++ check (runes_of_ascii "root packet P {
-    char c,
-    u8 x,
-}
-")).
-Eval vm_compute in ("<<<M1646>>>" ++ check (runes_of_ascii "packet A {
-    u8 x `
-        x`,
-}")).
-Eval vm_compute in ("<<<M934>>>" ++ check (runes_of_ascii "root packet A {
-    u8 x `
-`,
-}")).
-Eval vm_compute in ("<<<M1725>>>" ++ check (runes_of_ascii "  // c" ++ [8233]%N ++ runes_of_ascii "
+255 : x ,
+    } , ,	}")).
+Eval vm_compute in ("<<<M589>>>" ++ check (runes_of_ascii "
 packet
-    A 
-{ 
+    asx {match u128 as lengthOf
+255
+//	t
+// `tick` ""quote"" 'q'
+{ : x ,
+    } ,	}")).
+Eval vm_compute in ("<<<M936>>>" ++ check (runes_of_ascii "packet A {
+    B b `a
+    b
+  c`,
+    B `a
+    b
+  c`,
+    repeat B bs `a
+    b
+  c`,
+}")).
+Eval vm_compute in ("<<<M1597>>>" ++ check (runes_of_ascii "packet A {
+    B b `x
+        `,
+    B `x
+        `,
+    repeat B bs `x
+        `,
+}")).
+Eval vm_compute in ("<<<M1273>>>" ++ check (runes_of_ascii "options {
+    FixedStringPadFromLeft = true;
 }
-
+root packet P {
+    char[4] z,
+}
 ")).
-Eval vm_compute in ("<<<M1775>>>" ++ check (runes_of_ascii "  packet
+Eval vm_compute in ("<<<M166>>>" ++ check (runes_of_ascii "packet calculatedFrom {repeat // packet A { u8 x, }
+string Foo`{ , }`	, }
+")).
+Eval vm_compute in ("<<<M1653>>>" ++ check (runes_of_ascii "  root packet	P{  u16 
+a
+,  u32
+    Sum @calculatedFrom(
+	""CRC32"") 
+,} ")).
+Eval vm_compute in ("<<<M792>>>" ++ check (runes_of_ascii "packet A {
+  match k as n {
+    [1, ""bb"", 007] : B
+    2 : C
+  },
+}")).
+Eval vm_compute in ("<<<M783>>>" ++ check (runes_of_ascii "packet A {
+  match k as n {
+    [1, ""bb""] : B
+    2 : C
+  },
+}")).
+Eval vm_compute in ("<<<M1089>>>" ++ check (runes_of_ascii "packet A { // a
+ @tag(1) u8 x, // b
+ // c
+ @tag(2) u8 y, }")).
+Eval vm_compute in ("<<<M1093>>>" ++ check (runes_of_ascii "packet A { repeat // a
+ B // b
+ b // c
+ `d` // e
+ , }")).
+Eval vm_compute in ("<<<M1888>>>" ++ check (runes_of_ascii "MetaData M {
+    u8 x `x
+    `,
+    T t `x
+    `,
+}")).
+Eval vm_compute in ("<<<M756>>>" ++ check (runes_of_ascii "zchar ( : f64 ) , repeat f32 u16 float64 , ; :")).
+Eval vm_compute in ("<<<M1411>>>" ++ check (runes_of_ascii "
+root
+	packet
+
 A
+	{
+    u8
+	x
+`x
+`
+,	}
+")).
+Eval vm_compute in ("<<<M935>>>" ++ check (runes_of_ascii "packet A {
+    u8 x `a
+    b
+  c`,
+}")).
+Eval vm_compute in ("<<<M1063>>>" ++ check (runes_of_ascii "packet A {
+ u8 x `d x`, // c x
+}")).
+Eval vm_compute in ("<<<M1023>>>" ++ check (runes_of_ascii "packet A {
+ u8 x `d" ++ [8239]%N ++ runes_of_ascii "`, // c" ++ [8239]%N ++ runes_of_ascii "
+}")).
+Eval vm_compute in ("<<<M953>>>" ++ check (runes_of_ascii "packet A {
+    u8 x `
+x`,
+}")).
+Eval vm_compute in ("<<<M1112>>>" ++ check (runes_of_ascii "MetaData tag { }
+// c
+")).
+Eval vm_compute in ("<<<M1137>>>" ++ check (runes_of_ascii "MetaData u { }
+// c
+")).
+Eval vm_compute in ("<<<M991>>>" ++ check (runes_of_ascii "packet A {
+}
+// c" ++ [133]%N)).
+Eval vm_compute in ("<<<M1233>>>" ++ check (runes_of_ascii "packet x { }
+// c
+")).
+Eval vm_compute in ("<<<M1435>>>" ++ check (runes_of_ascii "MetaData i64_ {
+}")).
+Eval vm_compute in ("<<<M3>>>" ++ check (runes_of_ascii "options {}
 
-{} // c" ++ [6158]%N ++ runes_of_ascii "
- 
 ")).
-Eval vm_compute in ("<<<M1103>>>" ++ check (runes_of_ascii "// c
-MetaData tag { }")).
-Eval vm_compute in ("<<<M1134>>>" ++ check (runes_of_ascii "MetaData u { // c
-}")).
-Eval vm_compute in ("<<<M1032>>>" ++ check (runes_of_ascii "// c" ++ [11]%N ++ runes_of_ascii "
-packet A {
-}")).
-Eval vm_compute in ("<<<M1019>>>" ++ check (runes_of_ascii "packet A {
-}// c" ++ [8239]%N)).
-Eval vm_compute in ("<<<M712>>>" ++ check (runes_of_ascii "// @lengthOf(
-")).
-Eval vm_compute in ("<<<M1579>>>" ++ check (runes_of_ascii "
-//
-")).
-Eval vm_compute in ("<<<M769>>>" ++ check ([12]%N ++ runes_of_ascii "7" ++ [30]%N)).
+Eval vm_compute in ("<<<M1015>>>" ++ check (runes_of_ascii "// c" ++ [8233]%N)).
+Eval vm_compute in ("<<<M72>>>" ++ check (@nil rune)).
